@@ -4,6 +4,7 @@ import (
 	"fmt"
 	"go/token"
 	"go/types"
+	"strings"
 
 	"golang.org/x/tools/go/ssa"
 	"verifeng/smt"
@@ -156,7 +157,7 @@ func (m *Machine) panicNow(format string, a ...interface{}) {
 	}
 	// the current path is feasible by construction (modulo unknown); confirm and fetch a model
 	m.Obligations++
-	v := Violation{Label: msg, Kind: "panic", Pos: m.where(), PCSize: len(m.pc), Trace: append([]int64(nil), m.trace...)}
+	v := Violation{Label: msg, Kind: "panic", Pos: m.where(), PCSize: len(m.pc), Trace: append([]int64(nil), m.trace...), UsesUF: m.usedUF}
 	m.defineNondets()
 	r := m.Sol.Check()
 	if r == smt.Unsat {
@@ -305,7 +306,7 @@ func (m *Machine) exec(fr *frame, ins ssa.Instruction) {
 	case *ssa.Call:
 		fn, args := m.prepareCall(fr, &x.Call)
 		var res Value
-		if m.inInit > 0 && fr.fn.Synthetic != "" && fr.fn.Name() == "init" {
+		if m.inInit > 0 && (fr.fn.Synthetic == "package initializer" || strings.HasPrefix(fr.fn.Name(), "init#")) {
 			res = m.callSoft(fr, &x.Call, fn, args)
 		} else {
 			res = m.doCall(fr, &x.Call, fn, args)
